@@ -18,19 +18,32 @@ import ipaddress, itertools, os, re, socket
 from .. import common as C
 
 MANIFEST = dict(
-    text="Lean 4 theorems over an executable model of config_check_cond*/config_cond_cache_reset*/"
-         "config_cond_clear_node/h2_init_stream/patch_config/sock_addr_is_addr_eq_bits: for every "
-         "well-formed condition tree and every interleaving of checks, attribute rewrites with "
-         "reset_item, full resets, new requests and stream spawns, each cached evaluation equals the "
-         "recursive language semantics on the current attributes; last contributing block wins; CIDR "
-         "and host[:port] rules; model tied to the C (real config parser included) by differential runs "
-         "under ASan/UBSan",
-    note="trusted: Lean kernel, hand-written model validated by the h_cond correspondence (real "
-         "configparser.y/configfile.c/configfile-glue.c/mod_setenv.c/response.c http_response_config/h2.c "
-         "h2_init_stream), PCRE2 replaced by a small matcher on the generator's regex subset; the places "
-         "where other glue calls reset_item (mod_extforward, response.c path-info split, mod_magnet) are "
-         "outside the in-process model (the harness performs the reset that glue is specified to perform)",
-    tech="Lean 4 proof over hand-written model + differential correspondence (in-process C harness)",
+    text="Lean 4 theorems over an executable model of config_check_cond*/config_cond_cache_reset_item/"
+         "config_cond_clear_node/config_cond_cache_reset/h2_init_stream cache copy/patch_config/"
+         "sock_addr_is_addr_eq_bits. PROVED (model): for every well-formed condition tree and every "
+         "disciplined interleaving of checks, attribute rewrites paired with reset_item, full resets, "
+         "arbitrary validity-mask changes, new requests, stream spawns and patch_config runs, each "
+         "config_check_cond result is `true` only for an applying block, and iff it applies once the fields "
+         "the block depends on are available (covers the all-bits mask, the 8-field mask after "
+         "HANDLER_COMEBACK and connection-level masks); every patch_config in such a history gives each "
+         "directive the last contributing block in context order; order independence; connection-level "
+         "results stay valid when copied into a stream; CIDR = first n bits incl. IPv4-mapped forms; "
+         "host[:port] rule. TESTED ONLY (differential + independent Python oracle, ASan/UBSan): that the C "
+         "equals the model (real parser, configfile-glue.c, mod_setenv, http_response_config, "
+         "h2_init_stream); text -> tree parsing (configparser.y); =~/!~ through PCRE2; that the glue pairs "
+         "every attribute rewrite with the matching reset and re-derives attributes on request restart "
+         "(mini-server stream: mod_extforward remote address + scheme, mod_rewrite restart, mod_setenv). "
+         "OUTSIDE: mod_magnet, TLS SNI, path-info split call site, regex captures",
+    note="partial in the sense that the tie of glue to model is by test: trusted = Lean kernel; hand-written "
+         "model validated by the h_cond correspondence; PCRE2 replaced by a small matcher on the generator's "
+         "regex subset (ASCII subjects); well-formedness of parser output is checked per generated case "
+         "(flag W1), not proved of configparser.y; 'file order' is context order (blocks with an identical "
+         "condition are merged by the parser into the first occurrence — upstream design, not generated); "
+         "the stream discipline (no evaluation between h2_init_stream and the stream's first "
+         "http_response_config) and the atomicity of 'new attributes + full reset' are hypotheses of the "
+         "history theorem, met by the server by code reading and exercised by ops N/h/s and the srv stream",
+    tech="Lean 4 proof over hand-written model + differential correspondence (in-process C harness incl. a "
+         "mini server without sockets) + independent reference evaluator",
     ref="6/C14")
 
 DIRECTIVES = ['server.name = "v%d"', 'server.tag = "v%d"', 'server.max-request-size = %d',
@@ -450,6 +463,10 @@ def rand_ops(rng, cfg, nops):
         elif x < 0.90 and nslots < 4:
             ops.append("s")
             nslots += 1
+            if rng.random() < 0.7:      # the stream's request arrives: headers, http_response_config()
+                at = [rand_attr(rng, c) for c in ALL if rng.random() < 0.7]
+                ops.append("N,%d,%s,%s" % (nslots - 1, ALL, ";".join(at) or "-"))
+                ops.append("h,%d" % (nslots - 1))
         elif x < 0.94:
             ops.append("h,%d" % s)
         else:
@@ -647,10 +664,19 @@ def oracle(line, out, verbose=False):
         f = op.split(",")
         k = f[0]
         if k == "s":
+            # h2_init_stream(): a request without attributes of its own; socket and peer address are
+            # the connection's; the copied cache is for the attributes of request 0, so the server
+            # evaluates nothing on the stream before its first full reset (N + h, n or z here)
             src = slots[0]
-            slots.append(dict(at={**src["at"], "R": dict(src["at"]["R"])}, valid=set(src["valid"])))
+            at = blank_attrs()
+            at["S"], at["I"] = src["at"]["S"], src["at"]["I"]
+            slots.append(dict(at=at, valid=set(src["valid"]), pending=True))
             continue
         sl = slots[int(f[1])]
+        if k in "znh":
+            sl["pending"] = False
+        if sl.get("pending") and k in "kp":
+            continue        # (outside the server's discipline: no claim)
         if k == "a":
             apply_attr(sl["at"], f[2])
         elif k == "v":
@@ -825,6 +851,20 @@ def gen_corpus(ctx):
     first = "n,0,%s,%s" % (ALL, ";".join([attr_tok("H", "h2"), attr_tok("U", "/c"), attr_tok("C", "http"),
                                           attr_tok("M", "GET")]))
     lines = []
+    # `Upgrade: h2c` on the n-th keep-alive request: request n-1 leaves its results in the cache of
+    # con->request, h1.c narrows conditional_is_valid to socket + peer address WITHOUT a reset, every
+    # later stream inherits that cache (h2_init_stream) and must still get its own settings
+    cfg = remember(cfgs[1])
+    nn = len(cfg.nodes)
+    req1 = "N,0,%s,%s" % (ALL, ";".join([attr_tok("H", "h1"), attr_tok("U", "/b/x"), attr_tok("C", "http"),
+                                         attr_tok("M", "GET")]))
+    up = "N,0,%s,%s" % (ALL, ";".join([attr_tok("H", "h2"), attr_tok("U", "/a")]))
+    for a1, a2 in itertools.product(attrs, repeat=2):
+        ops = [req1, "h,0", "p,0,345"] + ["k,0,%d" % i for i in range(1, nn)] + [up, "v,0,SI", "s"]
+        ops += ["N,1,%s,%s" % (ALL, ";".join([attr_tok("H", "h2"), attr_tok("U", "/a"), a1])), "h,1", "p,1,345"]
+        ops += ["s", "N,2,%s,%s" % (ALL, ";".join([attr_tok("H", "h1"), attr_tok("U", "/c"), a2])), "h,2",
+                "p,2,345"] + ["k,2,%d" % i for i in range(1, nn)] + ["k,1,%d" % i for i in range(1, nn)]
+        lines.append(make_line(cfg, ops))
     for cfg in cfgs:
         remember(cfg)
         n = len(cfg.nodes)
@@ -1036,6 +1076,45 @@ def gen_rewrites(ctx):
         _cfg_cache.clear()
 
 
+# ----------------------------------------------------------------------------
+# duplicate conditions (upstream design: blocks with an identical condition in the same scope are
+# merged into the context of the FIRST occurrence, so a later textual assignment can lose against an
+# earlier block of another condition).  The stream only runs once known_findings.json carries an
+# entry for it (property C14, "duplicate condition" in its text); signature:
+#   oracle:cond\(duplicate conditions\):.*
+# ----------------------------------------------------------------------------
+DUP_CASES = [
+    # (config body, attributes, directives 0..2 expected by textual file order)
+    ('$HTTP["host"] == "h1" {\n  server.tag = "v1"\n}\n$HTTP["url"] =^ "/a" {\n  server.name = "v2"\n}\n'
+     '$HTTP["host"] == "h1" {\n  server.name = "v3"\n}\n',
+     ["0,-,G,un,-,-,-,-", "0,-,H,eq,%s,-,-,0.3+1.1" % C.hx("h1"), "0,-,U,pr,%s,-,-,0.2" % C.hx("/a")],
+     [("H", "h1"), ("U", "/a")], (3, 1, 0)),
+]
+
+
+def gen_dups(ctx):
+    if not any(k.get("property") == "C14" and "duplicate condition" in k.get("what", "") for k in ctx.known):
+        ctx.notes.append("stream cond(duplicate conditions) not run: no known-findings entry for the upstream "
+                         "merge of blocks with identical conditions")
+        return
+    lines = []
+    for body, toks, attrs, want in DUP_CASES:
+        cfg = 'server.document-root = "/tmp"\n' + body
+        lines.append("c %s %s / n,0,%s,%s p,0,012 #%s" % (
+            C.hx(cfg), " ".join(toks), ALL, ";".join(attr_tok(c, v) for c, v in attrs),
+            ".".join(str(x) for x in want)))
+    yield lines
+
+
+def dup_oracle(line, out):
+    want = line.rsplit("#", 1)[1]
+    got = out.split(" ")[-1].split("=")[0][1:]
+    if got != want:
+        return ("a later block with the same condition as an earlier one is merged into the earlier context: "
+                "its assignment does not win over a block in between (file order)")
+    return None
+
+
 def gen_match(ctx):
     """CIDR / host:port matrix: every configured network against every peer"""
     rng = ctx.rng
@@ -1110,6 +1189,9 @@ def run(ctx):
         for lines in g(ctx):
             ctx.differential(name, [exe], "cond", lines, oracle, classify)
             del lines
+    for lines in gen_dups(ctx):
+        ctx.differential("cond(duplicate conditions)", [exe], "cond", [l.rsplit(" #", 1)[0] for l in lines],
+                         lambda l, o, m={l.rsplit(" #", 1)[0]: l for l in lines}: dup_oracle(m[l], o), classify)
     ctx.exhaustive = False
     ctx.rule = ("cases: (generated lighttpd.conf parsed by the real parser, operation sequence on one "
                 "connection); distinct = (tree size, depth, chain length, operation kinds and results, cache "
